@@ -319,7 +319,7 @@ func c19Jobs(tier string) []*SeqJob {
 					continue
 				}
 				n := n
-				ctx.seen = map[string]struct{}{}
+				ctx.ResetSeen()
 				// no state merging for the stateless flavour: enumerate every history
 				enumSeqs(len(plainAlpha), depthP, func(seq []int) bool {
 					if ctx.Expired() {
